@@ -18,7 +18,10 @@ DECIDES = ('(a) no assignment that can enable the D+/D- output drivers is live w
            'de-asserted oe leads through SE0, SE0, J to idle, first bit leaves idle-J to K; RxNRZIDecoder: data = '
            '~(dk ^ last), se0 = ~dj & ~dk; (e) bit order: TxShifter emits bit 0 and shifts right; RxShifter + pipeline '
            'deliver the first received bit in bit 0; SYNC is seven 0s then a 1; the byte-accept strobe (o_get) is frozen while '
-           'the bit stuffer stalls, matching the ~stall gating at its consumer; (f) receive framing wiring. ')
+           'the bit stuffer stalls, matching the ~stall gating at its consumer; (f) receive framing wiring; (g) RxClockDataRecovery '
+           'composed with a monitor (cycles and bit strobes since the last recognised transition) is explored exhaustively from '
+           'reset under all values of the synchronised D+/D- pair in every cycle: between transitions 4k-1, 4k or 4k+1 sampling '
+           'cycles apart exactly k bits are strobed (k = 1..7), and a strobe always shows exactly one of J/K/SE0/SE1. ')
 NOT_DECIDED = ('jitter inside a bit (edges closer than 3 sampling cycles), the analogue side of the pads, FIFO crossing latency; the '
                'NRZI / bit-stuff / shifter stages of the receive pipeline beyond the clauses above.')
 
